@@ -774,3 +774,56 @@ func sameField(a, b *types.Var) bool {
 	}
 	return a.Name() == b.Name() && a.Pos() == b.Pos() && a.Pos().IsValid()
 }
+
+
+// pureHelpers: repository functions that only compute a value from their arguments: loop-free, no stores, sends, map
+// updates, go/defer, and calls only to math.* or builtins.  Path rules inline them so that extracting an expression into
+// such a helper does not change what a rule sees.
+func pureHelpers(p *Program) map[*ssa.Function]bool {
+	if p.pure != nil {
+		return p.pure
+	}
+	out := map[*ssa.Function]bool{}
+	for _, fn := range p.Funcs {
+		if fn.Parent() != nil || len(fn.Blocks) == 0 || fn.Signature.Results().Len() == 0 {
+			continue
+		}
+		ok := true
+		for _, b := range fn.Blocks {
+			for _, s := range b.Succs {
+				if s.Dominates(b) {
+					ok = false // loop
+				}
+			}
+			for _, in := range b.Instrs {
+				switch x := in.(type) {
+				case *ssa.BinOp, *ssa.Convert, *ssa.ChangeType, *ssa.Phi, *ssa.If, *ssa.Jump, *ssa.Return, *ssa.Extract, *ssa.DebugRef, *ssa.Field, *ssa.FieldAddr:
+				case *ssa.UnOp:
+					if x.Op == token.ARROW {
+						ok = false
+					}
+				case *ssa.Call:
+					switch callee := x.Call.Value.(type) {
+					case *ssa.Builtin:
+						if n := callee.Name(); n != "len" && n != "cap" && n != "min" && n != "max" {
+							ok = false
+						}
+					case *ssa.Function:
+						if callee.Pkg == nil || callee.Pkg.Pkg.Path() != "math" {
+							ok = false
+						}
+					default:
+						ok = false
+					}
+				default:
+					ok = false
+				}
+			}
+		}
+		if ok {
+			out[fn] = true
+		}
+	}
+	p.pure = out
+	return out
+}
